@@ -2,6 +2,9 @@
 from __future__ import annotations
 
 
+POISON = object()  # appended by the monitor to every list that read() returned
+
+
 def new_reader():
     from han.dlde import ModeDReader
 
@@ -40,12 +43,20 @@ def run(chunks, reader=None, states: set | None = None):
             err = (ex, i)
             break
         for m in msgs:
+            if m is POISON:
+                out.append({"bytes": None, "valid": None, "payload": None, "type": None, "exceptions": {}, "poison": True})
+                kept.append(None)
+                continue
             out.append(observe(m))
             kept.append(m)
+        if isinstance(msgs, list):
+            msgs.append(POISON)  # the caller owns the returned list; a list shared between calls would hand this back later
         if states is not None:
             states.add(bool(reader.is_in_hunt_mode))
     # a returned message must not change when the reader goes on reading: observe every message again at the end
     for o, m in zip(out, kept):
+        if m is None:
+            continue
         again = observe(m)
         o["changed_later"] = any(again[k] != o[k] for k in ("bytes", "valid", "payload"))
     return out, err[0], err[1]
